@@ -330,6 +330,42 @@ example : memFrameBytes [[1,2],[3,4]].flatten 1 2 1 8 2 "MONOCHROME2" 2 false = 
   memory_frame_bytes [[1,2],[3,4]] 1 2 1 8 "MONOCHROME2" (by decide) (by decide) (by simp) 1 (by simp)
 
 
+
+/-! ## What may be handed in as a frame number (values, not only integers) -/
+
+/-- **A frame number is accepted iff it is an integer object that lies inside the image** - Python ints, numpy integer
+scalars of every width, and `True` / `False` as the ints they are; the answer is its 0-based index, never wrapped.
+(`stdFrameIndexV` = the conversion the source applies first - regenerated name, T1c - followed by the regenerated guard T1.) -/
+theorem frame_number_value_accepted_iff (v : PyVal) (asIndex : Bool) (N r : Int) :
+    stdFrameIndexV v asIndex N = .ok r ↔
+      ∃ k, v.asInteger = some k ∧ 0 ≤ r ∧ r < N ∧ r = (if asIndex then k else k - 1) := by
+  unfold stdFrameIndexV convertBy frameNumberConversion
+  simp only [↓reduceIte, bind, Except.bind]
+  cases v <;> simp [opIndex, PyVal.asInteger, frame_number_accepted_iff]
+
+/-- floats (integral or not), numeric strings, None and numpy booleans are refused with a TypeError - never truncated,
+    parsed or read as 0 / 1 -/
+theorem non_integer_frame_number_refused (v : PyVal) (asIndex : Bool) (N : Int) (h : v.asInteger = none) :
+    stdFrameIndexV v asIndex N = .error .type ∧ lazyIndexGuardV v N = .error .type := by
+  unfold stdFrameIndexV lazyIndexGuardV convertBy frameNumberConversion readerIndexConversion
+  simp only [↓reduceIte, bind, Except.bind, List.headD_cons]
+  cases v <;> simp_all [opIndex, PyVal.asInteger]
+
+/-- the reader's own guard on values: accepted iff an integer object inside the image -/
+theorem reader_index_value_accepted_iff (v : PyVal) (N r : Int) :
+    lazyIndexGuardV v N = .ok r ↔ ∃ k, v.asInteger = some k ∧ r = k ∧ 0 ≤ k ∧ k < N := by
+  unfold lazyIndexGuardV convertBy readerIndexConversion
+  simp only [↓reduceIte, bind, Except.bind, List.headD_cons]
+  cases v <;> simp [opIndex, PyVal.asInteger, lazy_index_accepted_iff]
+  all_goals (constructor <;> rintro ⟨h1, h2, h3⟩ <;> subst h1 <;> exact ⟨rfl, h2, h3⟩)
+
+/-- both reader methods convert their index first (regenerated, T11f) -/
+theorem reader_converts_index_first : readerIndexConversion = ["operator.index", "operator.index"] := by decide
+
+example : stdFrameIndexV (.npInt 8 false 3) false 3 = .ok 2 := by decide
+example : stdFrameIndexV (.float (3/2)) false 3 = .error .type := (non_integer_frame_number_refused (.float (3/2)) false 3 rfl).1
+example : stdFrameIndexV (.bool true) false 3 = .ok 0 := by decide
+
 /-! ## ONE specification for every access path: frame i = slice i of the decoded pixel data
 
 `sliceBits pd N i` = bits `i*N .. (i+1)*N` of the unpacked PixelData (native 1-bit), `sliceBytes pd L i` = bytes
